@@ -195,6 +195,7 @@ let run_tb (a : string list) : string =
                 match e.[0] with
                 | 'k' -> [FKey (unhex v)]
                 | 'o' -> List.init (int_of_string v) (fun _ -> FObj (n_of_int 8))
+                | 'a' -> [FAny]
                 | _ -> []) (String.split_on_char '+' f)) in
         Some { bb_kw = unhex kw; bb_type = unhex ty; bb_kind = nat_of_int (int_of_string kd);
                bb_nvar = nat_of_int (int_of_string nv); bb_fields = fields }
